@@ -15,9 +15,13 @@ ID = "C10"
 TRUSTED = ["CPython dict/list semantics of the loaded grammar (exercised: the loaded tables are compared with "
            "OmenSpec.ip_at/cp_at/ln_at on every generated directory)",
            "harness/omen_gen.brute_levels (independent enumerator used as oracle)"]
-ASSUMES = ["wf_tables G (no n-gram listed twice, IP strings have ngram-1 characters, CP strings ngram, levels <= max_level)",
-           "first_below_max G for the as-coded _find_first_object (C10_refuted_first_object is the witness otherwise)"]
-
+ASSUMES = ["cache_ok c: every value in the memo table is the first completion for its key -- true of the empty table and "
+           "preserved by every call (C10_fill_is_first, C10_exact return a sound table), so it holds for every history",
+           "mc_starts = Some _ (the constructor does not raise): implied by first_below_max G, i.e. some IP and some length "
+           "below max_level (C10_first_below_max_constructs); C10_refuted_first_object is the witness otherwise (R17)",
+           "wf_tables G for C10_set / C10_NoDup only (no n-gram listed twice, IP strings have ngram-1 characters, CP strings "
+           "ngram, levels <= max_level); evaluated as wf_tablesb on every generated model (C10_wf_tablesb_sound)",
+           "omen_first_object_extra <= 1 (side condition on the extracted constant, Props/C10.v)"]
 
 def consts():
     import consts.omen_gen as cg
